@@ -34,8 +34,8 @@ META = {
             "unsupported operations, next request still answered.  Client: all programs of <=3 (quick) / "
             "<=4 (thorough) steps over {pipelined write small / 101 chunks, stat, listdir, read and "
             "prefetch+read on a second file, close}; every call must return under every explored "
-            "timing of the server's answers (deviation bound 1; thorough: 2 for programs without the "
-            "101-chunk write or of <= 2 steps).",
+            "timing of the server's answers (deviation bound 1; thorough: 2 for programs of <= 3 steps "
+            "without the 101-chunk write and for 2-step programs not combining it with prefetch).",
     "note": "server half single-threaded through the real start_subsystem loop; client half: an explicit "
             "'server catches up now' choice before every step and at every recv_ready() poll of "
             "SFTPFile._write, plus full thread-schedule branching (delay bounded) during the prefetch+read "
@@ -418,7 +418,8 @@ def run_grid_chunk(chunk, acc):
                 label, t, tag, hc, build = _PROBES[arg]
                 resp = run_probe(scr, acc, label, t, tag, hc, build)
                 acc.count("grid_requests")
-                if arg % 997 == 0:
+                if (t, hc, label["path"]) in ((T.READ, "file", None), (T.FSTAT, "closed", None),
+                                              (77, "garbage", "missing")) and len(acc.samples) < 3:
                     acc.sample({"part": "grid", "request": label, "response": summarize(resp)})
             else:
                 j, cut = arg
@@ -565,7 +566,8 @@ def judge_transition(acc, hist, ev, st):
 
 
 def bfs_part(item, acc):
-    tier, first, depth = item
+    tier, prefix, depth = item
+    prefix = list(prefix)
     scr = Scratch()
 
     def on_transition(hist, ev, st):
@@ -576,9 +578,9 @@ def bfs_part(item, acc):
     try:
         res = bfs.bfs(lambda hist: build_hist(scr, acc, hist), lambda st, hist: range(len(ALPHABET)),
                       canon, on_transition, max_depth=depth,
-                      initial=[first] if first is not None else [])
+                      initial=prefix)
         acc.states += res.states
-        acc.cmax("max_bfs_depth", res.max_depth + (1 if first is not None else 0))
+        acc.cmax("max_bfs_depth", res.max_depth + len(prefix))
         acc.count("bfs_frontier_left_at_depth_cap", res.frontier_left)
     finally:
         scr.close()
@@ -749,7 +751,8 @@ def run_client_chunk(item, acc):
     try:
         for prog in progs:
             bound = 1
-            if tier != "quick" and ("w101" not in prog or len(prog) <= 2):
+            if tier != "quick" and (("w101" not in prog and len(prog) <= 3)
+                                    or (len(prog) <= 2 and "pread2" not in prog)):
                 bound = 2
             info = {}
             body = make_body(prog, base, info)
@@ -799,12 +802,14 @@ def client_half(ck, tier):
     progs.sort(key=lambda p: (-p.count("w101"), -len(p), p))
     items = [(tier, progs[i:i + 4]) for i in range(0, len(progs), 4)]
     acc = core.pmap(items, run_client_chunk)
+    acc.samples = acc.samples[:2]
     ck.merge(acc)
     if any("cap of" in n for n in acc.notes):
         ck.cap_hit("client schedule cap per program")
     ck.extra["client_bound"] = {"steps": STEPS, "max_program_length": 3 if tier == "quick" else 4,
                                 "delay_bound": "1" if tier == "quick" else
-                                "2 for programs without w101 and for programs of <= 2 steps, else 1",
+                                "2 for programs of <= 3 steps without w101 and for programs of <= 2 steps that do not "
+                                "combine w101 with prefetch, else 1",
                                 "programs": acc.counters.get("client_programs", 0),
                                 "schedules": acc.counters.get("client_schedules", 0),
                                 "MAX_REQUEST_SIZE": CHUNK}
@@ -817,18 +822,24 @@ def client_half(ck, tier):
 def server_half(ck, tier):
     items = grid_items()
     acc = core.pmap(enum.chunks(items, 64), run_grid_chunk)
+    grid = [x for x in acc.samples if x.get("part") == "grid"][:2]
+    acc.samples = grid + [x for x in acc.samples if x.get("part") == "truncation"][:1]
     ck.merge(acc)
     depth = 5 if tier == "quick" else 7
-    parts = [(tier, None, 1)] + [(tier, e, depth - 1) for e in range(len(ALPHABET))]
+    plen = 1 if tier == "quick" else 2      # BFS is partitioned by the first plen requests
+    parts = [(tier, (), plen)] + [(tier, pre, depth - plen)
+                                  for pre in itertools.product(range(len(ALPHABET)), repeat=plen)]
     acc2 = core.pmap(parts, bfs_part)
+    acc2.samples = acc2.samples[:1]
     ck.merge(acc2)
     ck.extra["server_bound"] = {
         "grid_requests": acc.counters.get("grid_requests", 0),
         "truncated_requests": acc.counters.get("truncated_requests", 0),
         "bfs_alphabet": [a[0] for a in ALPHABET],
         "bfs_depth": depth,
-        "bfs_note": "BFS partitioned by first request (one partition per worker); states are "
-                    "merged inside a partition, the reported state count is the sum over partitions",
+        "bfs_note": "BFS partitioned by the first %d request(s) (one partition per work item); states "
+                    "are merged inside a partition, the reported state count is the sum over "
+                    "partitions (an over-count of distinct states, never an under-count)" % plen,
     }
 
 
@@ -839,7 +850,9 @@ def main(tier):
         "grid over command number x handle class x path class x per-request argument variants, all "
         "body truncations, BFS over histories of a 13-request alphabet; nontrivial = distinct (request "
         "kind, handle class, path class, answer type/status) for the grid and distinct (request, "
-        "handle validity, answer, canonical server state) for BFS transitions",
+        "handle validity, answer, canonical server state) for BFS transitions; client: one execution = "
+        "(program, choice list); nontrivial = distinct (program, recv_ready() answers, choices) in which "
+        "recv_ready() was polled or a non-default choice was taken",
         ["server driven through start_subsystem over a fake channel (no SSH transport, no threads)",
          "SFTPServerInterface = local-directory stub adapted from tests/_stub_sftp.py",
          "request ids are arbitrary 32-bit values chosen by the harness"])
